@@ -965,6 +965,33 @@ def _map_func_over_core_dims(
     # (we don't need a separate code path using bare map_blocks if boundary_widths are zero because map_overlap just
     # calls map_blocks automatically in that scenario)
     def mapped_func(*a, **kw):
+        from dask.array.overlap import ensure_minimum_chunksize  # type: ignore
+
+        # Every chunk has to be able to supply the halo of its neighbour. dask would merge chunks
+        # that are narrower than the halo by itself, which invalidates the output chunks we
+        # declare. So do that merging here and derive the output chunks from the result.
+        def _merge_too_narrow_chunks(x):
+            new_chunks = list(x.chunks)
+            for axis_num, widths in boundary_width_per_numpy_axis.items():
+                if max(widths) > 0 and len(new_chunks[axis_num]) > 1:
+                    new_chunks[axis_num] = ensure_minimum_chunksize(
+                        max(widths), new_chunks[axis_num]
+                    )
+            return x.rechunk(tuple(new_chunks))
+
+        merged = tuple(_merge_too_narrow_chunks(x) for x in a)
+        if all(x.chunks == y.chunks for x, y in zip(a, merged)):
+            out_chunks = true_chunksizes_per_numpy_axis
+        else:
+            a = merged
+            out_chunks = list(a[0].chunks)
+            for axis_num, (lower, upper) in boundary_width_per_numpy_axis.items():
+                along = list(out_chunks[axis_num])
+                along[0] -= lower
+                along[-1] -= upper
+                out_chunks[axis_num] = tuple(along)
+            out_chunks = tuple(out_chunks)
+
         return dask_map_overlap(
             func,
             *a,
@@ -973,7 +1000,7 @@ def _map_func_over_core_dims(
             boundary="none",
             trim=False,
             meta=np.array([], dtype=out_dtypes[0]),
-            chunks=true_chunksizes_per_numpy_axis,
+            chunks=out_chunks,
         )
 
     return mapped_func
